@@ -55,6 +55,9 @@ type C17Case struct {
 	// again: the kernel hands out hidraw numbers anew, the event nodes of the harness stay event5 / event9).
 	Hidraw []int `json:"hidraw,omitempty"`
 	Prior  []int `json:"prior,omitempty"`
+	// Busy: the reader of the device's MIDI output is busy for this long (ms) when the event stream ends (keys may be held:
+	// the disconnect clean-up has to wait); the LEDs must still turn red
+	Busy int `json:"busy,omitempty"`
 }
 
 // otherController: what else an OpenRGB server typically lists next to the keyboard.
@@ -545,6 +548,18 @@ func checkC17(c C17Case) (nontrivial bool, v *Violation) {
 		if ld.returned {
 			return nil
 		}
+		if c.Busy > 0 {
+			b := busyDisconnect(ld.in, ld.out, ld.done, c.Busy, 12*time.Second)
+			ld.returned = true
+			switch {
+			case b.Stuck:
+				return violation("C17", "no-return", "busy-receiver", "ProcessEvents did not return after the event stream ended (the reader of the MIDI output was busy for the first %d ms)\n%s", c.Busy, firstLines(allStacks(), 80))
+			case b.Panic != "":
+				return violation("C17", "panic", "", "device code panicked: %s", b.Panic)
+			}
+			classify("MIDI output busy at disconnect")
+			return nil
+		}
 		close(ld.in)
 		select {
 		case p := <-ld.done:
@@ -783,6 +798,9 @@ func genC17(t *rapid.T) C17Case {
 	if rapid.IntRange(0, 2).Draw(t, "hasOthers") == 0 {
 		c.Before = rapid.SliceOfN(rapid.SampledFrom(otherKinds), 0, 3).Draw(t, "before")
 		c.After = rapid.SliceOfN(rapid.SampledFrom(otherKinds), 0, 2).Draw(t, "after")
+	}
+	if rapid.IntRange(0, 5).Draw(t, "busyAtDisconnect") == 0 {
+		c.Busy = rapid.IntRange(600, 1200).Draw(t, "busyMs")
 	}
 	if rapid.IntRange(0, 7).Draw(t, "replug") == 0 {
 		nums := rapid.Permutation([]int{0, 1, 2, 3}).Draw(t, "hidrawNumbers")
